@@ -2,4 +2,4 @@ From GD Require Import C09.Names C09.Scope C09.Alias Gen.ScopeParams.
 Require Import ExtrOcamlBasic.
 Extraction Language OCaml.
 Extraction "model.ml" interp_impl interp_spec code_params spec_params translator_problems
-  build_code spec_code plain_name plain_code tree_reprlike tree_indexlike tree_dotns tree_plain.
+  build_code spec_code plain_name plain_code tree_reprlike tree_indexlike tree_dotns tree_plain lookup_code lookup_repr.
